@@ -368,3 +368,67 @@ def gen_Misc3Tables() -> None:
 
 
 GENERATORS = {"PyFuns2": gen_PyFuns2, "EnumTables": gen_EnumTables, "PyFuns3": gen_PyFuns3, "Misc3Tables": gen_Misc3Tables}
+
+
+# ------------------------------------------------------------------------------------------------ inventory (phase 3, target 1)
+# Python name -> Lean identifiers that must occur in a `theorem` statement of Properties/C20.lean for the helper to count as covered.
+INVENTORY_MAP = {
+    "Endianness": ["endiannessMembers"], "Endianness.values": ["endiannessMembers"],
+    "BinaryPattern": ["patternAccept"], "BinaryPattern.get_block": ["Pattern.block", "p.block"], "BinaryPattern.pattern": ["patternProp"],
+    "align": ["align "], "align_block": ["alignBlock"], "align_block_fill_random": [], "extend_block": ["extendBlock"],
+    "find_first": ["findFirst"], "format_value": ["formatValue"], "get_bytes_cnt_of_int": ["getBytesCnt"],
+    "value_to_int": ["valueToInt"], "value_to_bytes": ["valueToBytes"], "value_to_bool": ["valueToBool"],
+    "load_hex_string": ["loadHexString", "loadHexFile"], "reverse_bytes_in_longs": ["reverseBytesInLongs"],
+    "change_endianness": ["changeEndianness"], "size_fmt": ["sizeFmt"], "swap16": ["swap16"], "swap32": ["swap32"],
+    "reverse_bits": ["reverseBits"], "check_range": ["check_range"], "split_data": ["splitData"], "swap_bytes": ["swapBytes"],
+    "SecBootBlckSize.is_aligned": ["sbIsAligned"], "SecBootBlckSize.align": ["sbAlign"], "SecBootBlckSize.to_num_blocks": ["sbToNumBlocks"],
+    "SecBootBlckSize.align_block_fill_zeros": ["sbAlignBlockFillZeros"], "SecBootBlckSize.align_block_fill_random": [],
+    "BcdVersion3.from_str": ["bcdFromStr"], "BcdVersion3.to_version": [], "BcdVersion3.__str__": ["bcdStr"], "BcdVersion3.nums": [],
+    "BcdVersion3._check_number": ["bcdCheckNumber"], "BcdVersion3._num_from_str": ["bcdNumFromStrGuard", "bcdFromStr"],
+    "unpack_timestamp": ["unpackTimestampGuard"], "pack_timestamp": [],
+    "SpsdkEnum.from_tag": ["fromTag"], "SpsdkEnum.from_label": ["fromLabel"], "SpsdkEnum.get_tag": ["getTag"], "SpsdkEnum.get_label": ["getLabel"],
+    "SpsdkEnum.get_description": ["getDescription"], "SpsdkEnum.contains": ["containsTag"], "SpsdkEnum.from_attr": ["containsTag"],
+    "SpsdkEnum.labels": [], "SpsdkEnum.tags": [], "SpsdkEnum.create_from_dict": [],
+    "SpsdkSoftEnum.from_tag": ["softFromTag"], "SpsdkSoftEnum.get_label": ["softGetLabel"], "SpsdkSoftEnum.get_description": ["softGetDescription"],
+}
+NOT_PURE = {"load_binary", "load_text", "load_file", "write_file", "get_abs_path", "find_dir", "find_file", "use_working_directory", "Timeout",
+            "load_configuration", "get_printable_path", "get_spsdk_version", "load_secret", "SingletonMeta", "pack_timestamp", "unpack_timestamp",
+            "align_block_fill_random", "SecBootBlckSize.align_block_fill_random"}
+
+
+def inventory() -> list:
+    """[(file, qualname, status)] for every public top-level function / public method of the three anchored files."""
+    import re
+    from extract import HERE
+    props = (HERE.parent.parent / "lean" / "SpsdkVerif" / "Properties" / "C20.lean").read_text()
+    stmts = " ".join(re.findall(r"^theorem .*?:=", props, flags=re.S | re.M))
+    rows = []
+    for rel in (MISC, SBMISC, "spsdk/utils/spsdk_enum.py"):
+        tree = parse(rel)
+        names = []
+        for st in tree.body:
+            if isinstance(st, ast.FunctionDef) and not st.name.startswith("_"):
+                names.append(st.name)
+            elif isinstance(st, ast.ClassDef) and not st.name.startswith("_"):
+                meths = [m.name for m in st.body if isinstance(m, ast.FunctionDef) and (not m.name.startswith("_") or m.name in ("__str__", "_check_number", "_num_from_str"))]
+                if st.name in INVENTORY_MAP or not meths:
+                    names.append(st.name)
+                names += [f"{st.name}.{m}" for m in meths if st.name not in ("Timeout", "SingletonMeta", "BinaryPattern", "Endianness", "SpsdkEnumMember")
+                          or f"{st.name}.{m}" in INVENTORY_MAP]
+        for n in names:
+            keys = INVENTORY_MAP.get(n)
+            if keys and any(k in stmts for k in keys):
+                status = "theorem"
+            elif n in NOT_PURE or n.split(".")[0] in NOT_PURE:
+                status = "not pure (I/O, clock, randomness)" + (" - guard generated + theorem" if keys and any(k in stmts for k in keys) else "")
+            else:
+                status = "NOT under a theorem"
+            rows.append((rel, n, status))
+    return rows
+
+
+if __name__ == "__main__":
+    import sys
+    if "--inventory" in sys.argv:
+        for rel, n, status in inventory():
+            print(f"{rel}::{n}: {status}")
